@@ -66,6 +66,24 @@ character at all, whatever the path -/
 theorem urlquote_no_special (s : Str) : ∀ c ∈ urlquote s, c ∉ special :=
   urlquote_safe quote_table_ok s
 
+/-- `Request.url` can fail only where the library's `urljoin` does (an authority part it
+rejects); everything else of the URL assembly is total.  So the only request-made way to the
+last-resort page through the URL is the library's `ValueError`. -/
+theorem request_url_error_only_from_urljoin (env : UrlEnv) (pathInfo : Str) (e : Err)
+    (h : requestUrl env pathInfo = .error e) : env.joinLib = .error e := by
+  unfold requestUrl at h
+  simp only at h
+  split at h
+  · rename_i e' hf
+    cases h
+    unfold fullpathOf urljoinPath at hf
+    simp only at hf
+    repeat' split at hf
+    all_goals first
+      | exact hf
+      | cases hf
+  · cases h
+
 /-- `repr_preserves`, general half: whatever the string and the quote `repr` picks, a `<`, `>`
 or `&` in `repr(s)` is a character of `s` itself: `repr` introduces none -/
 theorem repr_introduces_none (pr : Char → Bool) (s : Str) (x : Char) (hx : x ∈ pyRepr pr s)
@@ -164,7 +182,7 @@ theorem served_error_inert (pr : Char → Bool) (req : Req) (oc : Outcome) (hoc 
     r.body = [] ∨
     (r.ctype = jsonType ∧ ∃ b x t, jsonParse r.body =
         some [("body".toList, b), ("exception".toList, some x), ("traceback".toList, t)]) ∨
-    (r.ctype = htmlType ∧ ∃ sb ∈ frameworkPages, ∃ url, requestUrl req.env = .ok url ∧
+    (r.ctype = htmlType ∧ ∃ sb ∈ frameworkPages, ∃ url, requestUrl req.env (shownPath req.rawPath) = .ok url ∧
         r.body = pagePre Gen.errorTemplateLines sb ++ urlCell pr url ++ pagePost Gen.errorTemplateLines sb ∧
         Inert (urlCell pr url)) ∨
     (r.ctype = htmlType ∧
@@ -214,7 +232,7 @@ theorem served_error_inert (pr : Char → Bool) (req : Req) (oc : Outcome) (hoc 
         exact json_error_valid _ _ _
     | false =>
       simp only [hj, Bool.false_eq_true, if_false] at hr
-      cases hu : requestUrl req.env with
+      cases hu : requestUrl req.env (shownPath req.rawPath) with
       | error err =>
         simp only [hu] at hr
         rcases hcrit r hr with h | h
@@ -251,7 +269,7 @@ def demoReq : Req :=
   { rawPath := [47, 110, 120], accept := none, isHead := false,
     env := { fwdProto := none, urlScheme := some "http".toList, fwdHost := none,
              host := some "h<b>'\"&".toList, serverName := none, serverPort := none,
-             query := some "q=<i>{url}{0}".toList, fullpath := .ok "/nx".toList } }
+             query := some "q=<i>{url}{0}".toList, scriptName := none, joinLib := .error .valueError } }
 
 /-- `served_error_inert`, HTML case: the hypotheses are met by `demoReq` with a 404, the page is
 not empty and shows the request text only in escaped form -/
@@ -259,6 +277,13 @@ example : Outcome.framework .notFound = true ∧
     (serve (fun _ => true) Gen.errorTemplateLines false demoReq .notFound false ([], [])).ctype = htmlType ∧
     (findSub "'http://h&lt;b&gt;&#x27;&quot;&amp;/nx?q=&lt;i&gt;{url}{0}'".toList
       (serve (fun _ => true) Gen.errorTemplateLines false demoReq .notFound false ([], [])).body).isSome = true := by
+  decide +kernel
+
+/-- `request_url_error_only_from_urljoin`: a path whose text after the slash is `http://[`
+makes the model ask the library, whose `ValueError` becomes the error of `Request.url` -/
+example : (match requestUrl { demoReq.env with joinLib := .error .valueError } "/http://[".toList with
+    | .error e => e == .valueError
+    | .ok _ => false) = true := by
   decide +kernel
 
 /-- JSON case: same request with `Accept: application/json`, a crashing handler -/
